@@ -361,6 +361,25 @@ func evalIkesaPairs(c *Ctx, primes map[string]*big.Int, n int) error {
 		if ref, _ := implGenIkesa(s, nonce, gir, si, sr); ref != saKeysSX(kb) {
 			fail("the keys NewIKESAKey derives are not those of prf+ over SKEYSEED = prf(Ni|Nr, g^ir) with g^ir of the modulus length", cs, ref, saKeysSX(kb))
 		}
+		// the same peer value presented again: a NEW exponent is drawn every time (here: the scripted one), and a random
+		// source that fails yields an error, not a key - whatever the library saw before
+		xc := rng.Bytes(256)
+		xc[0] &= 0x7f
+		xc[17] |= 1
+		var pubC []byte
+		var errC, errF error
+		var kF *security.IKESAKey
+		withScript(xc, nil, func(*scriptReader) { _, pubC, errC = security.NewIKESAKey(prop, pubA, nonce, si, sr) })
+		withScript(nil, nil, func(*scriptReader) { kF, _, errF = security.NewIKESAKey(prop, pubA, nonce, si, sr) })
+		rcs := fmt.Sprintf("(new_ikesa_again %s %s peer=%s exponents %s then %s then an exhausted source)", g, s, hx(pubA), hx(xb), hx(xc))
+		r.ImplRuns += 2
+		r.Count(rcs, true, "new-ikesa-again:group"+g)
+		if wantC := padTo(new(big.Int).Exp(two, new(big.Int).SetBytes(xc), p).Bytes(), dhLen[g]); errC != nil || !bytes.Equal(pubC, wantC) {
+			fail("a repeated NewIKESAKey with the same peer value does not use the exponent drawn for it (exponents must differ from call to call)", rcs, hx(wantC), fmt.Sprint(hx(pubC), errC))
+		}
+		if errF == nil || kF != nil {
+			fail("NewIKESAKey returns a key although the random source fails", rcs, "error", "key")
+		}
 		// one party, ANY peer value 0 <= y < 2^2056 in any representation (shorter than the modulus, with leading zero
 		// octets, one octet longer than the modulus, >= p): the shared secret is y^x mod p all the same
 		L0 := dhLen[g]
